@@ -71,6 +71,11 @@ CHECKS = {
             'Generated projects (1-5 files in nested directories, cross-file classes/functions/exceptions in both dependency directions and cycles). Per accepted project: every permutation of the file list through mamba_to_python (outputs compared as Python ASTs), the project plus an unrelated file, the real binary under strace -f -e trace=%file in three CLI layouts (write-set = exactly the mirrored .py files, nothing outside the output directory, nothing removed, content equal to the library output), a second run into the populated directory, a run after one file got shorter (must equal a fresh transpilation), and for each file and each fault kind (lexical, syntactic, type) one run with that single file faulty, into the populated and into a fresh directory: exit status non-zero, no Python written, previous output untouched, every diagnostic names exactly the faulty file.',
             'strace sees all file-system effects; injected faults are file-local and verified to be faults (the faulty file alone is rejected at the parse stage); imports only for flat module names (dotted paths do not parse on this tree).',
             'DESIGN.md section 4, C13'),
+    'C11': ('translation_validation',
+            'two-translation comparison at run time: every input transpiled with annotate on and off by the real pipeline; verdicts compared; outputs compared as Python ASTs after annotation erasure; generated programs and valid samples executed under both outputs',
+            'Translation validation of one translation against the other: 29 annotation-sensitive construct cells, the 1300-cell construct x context sweep, seeded random programs, all 277 repository samples and mutated samples. Same verdict required; erase(ast(on)) == erase(ast(off)) where erasure turns annotated assignments into assignments, drops bare annotations, clears parameter/return annotations and reduces typing imports to the names still used; executed behaviour (printed lines, exception class) of both outputs must be equal.',
+            'CPython ast as the notion of "same program"; an irreproducible baseline is left to C12.',
+            'DESIGN.md section 4, C11'),
 }
 
 NOT_YET = 'monitor not built yet in this revision (construction order: DESIGN.md section 9); not claimed rather than claimed weakly'
